@@ -185,14 +185,13 @@ class TdMpsJob(object):
         os.makedirs(self.dump_dir, exist_ok=True)
         file_path = os.path.join(self.dump_dir, self.job_name + ".npz")
         bak_path = file_path + ".bak"
-        if os.path.exists(file_path):
-            # in case of shutdown while dumping
-            if os.path.exists(bak_path):
-                os.remove(bak_path)
-            os.rename(file_path, bak_path)
+        # in case of shutdown while dumping: write to a temporary file and replace the result file
+        # atomically, so that the last complete result (also one left by an earlier run) is never lost
+        tmp_path = file_path + ".tmp.npz"
+        np.savez(tmp_path, **d)
+        os.replace(tmp_path, file_path)
 
-        np.savez(file_path, **d)
-
+        # backup left behind by an interrupted dump of an earlier run
         if os.path.exists(bak_path):
             os.remove(bak_path)
 
